@@ -8,6 +8,12 @@ SLICES = [
     {'kind': 'slice', 'i': 0, 'a': 0, 'b': 1, 'c': 99}, {'kind': 'slice', 'i': 0, 'a': 99, 'b': 99, 'c': 2},
     {'kind': 'slice', 'i': 0, 'a': 1, 'b': 99, 'c': 99}, {'kind': 'slice', 'i': 0, 'a': 99, 'b': 99, 'c': -1},
     {'kind': 'slice', 'i': 0, 'a': -2, 'b': 99, 'c': 99},
+    # bounds of different sign: where the start counts from the end and the stop from the front (or the other way round), the
+    # selection depends on the TOTAL number of matches - it cannot be decided from the first `stop` of them
+    {'kind': 'slice', 'i': 0, 'a': -2, 'b': 2, 'c': 99}, {'kind': 'slice', 'i': 0, 'a': -1, 'b': 1, 'c': 99},
+    {'kind': 'slice', 'i': 0, 'a': 1, 'b': -1, 'c': 99}, {'kind': 'slice', 'i': 0, 'a': -3, 'b': -1, 'c': 99},
+    {'kind': 'slice', 'i': 0, 'a': 2, 'b': 0, 'c': -1}, {'kind': 'slice', 'i': 0, 'a': 0, 'b': -1, 'c': 2},
+    {'kind': 'slice', 'i': 0, 'a': -1, 'b': -3, 'c': -1},
 ]
 
 
